@@ -79,25 +79,38 @@ def write_replay(prop, kind, payload):
     return p
 
 
+# which properties import the file each extra pass of the translator generates (coq/Properties/Cxx.v): a failure of such a
+# pass leaves only THEIR theorems unchecked against the current source; the tables pass is charged by anchor file
+PASS_CONSUMERS = {"random": {"C18"}, "arrays": {"C16"}, "program_lines": {"C04"}, "program_events": {"C16", "C03"}}
+
+
 def translator_failure_is_foreign(prop, out):
-    """True when the translator's error names a source file that is not among the property's anchor files
-    (properties.jsonl) and a previously translated Tables.v exists."""
+    """True when no failing pass of the translator concerns this property: an extra pass whose generated file the property's
+    theorems do not import, or the tables pass failing in a source file that is not among the property's anchor files
+    (properties.jsonl) - and previously translated files exist."""
     import re
     lines = [l for l in out.split("\n") if l.startswith("TRANSLATOR-ERROR:")]
-    failing = [m.group(1) for m in (re.search(r"TRANSLATOR-ERROR: ((?:abasic-[\w-]+)/[\w/.-]+\.(?:rs|ts))", l) for l in lines) if m]
-    # every pass of the translator (tables, random.rs, arrays.rs, program_lines.rs) reports its own failure: all of them must name a file
-    if not failing or len(failing) != len(lines) or not all(os.path.exists(os.path.join(core.COQ, "Gen", g))
-                                                           for g in ("Tables.v", "RandomRs.v", "ArraysRs.v", "ProgramLinesRs.v", "ProgramEvents.v")):
+    parsed = [re.search(r"TRANSLATOR-ERROR: (?:\[(\w+)\] )?((?:abasic-[\w-]+)/[\w/.-]+\.(?:rs|ts))", l) for l in lines]
+    if not lines or not all(parsed) or not all(os.path.exists(os.path.join(core.COQ, "Gen", g))
+                                               for g in ("Tables.v", "RandomRs.v", "ArraysRs.v", "ProgramLinesRs.v", "ProgramEvents.v")):
         return False
+    anchors = []
     try:
         with open(os.path.join(core.ROOT, "properties.jsonl")) as f:
             for line in f:
                 d = json.loads(line)
                 if d.get("id") == prop:
-                    return not any(x in d.get("anchors", {}).get("files", []) for x in failing)
+                    anchors = d.get("anchors", {}).get("files", [])
     except (OSError, ValueError):
         return False
-    return False
+    for m in parsed:
+        pas, failing = m.group(1), m.group(2)
+        if pas in PASS_CONSUMERS:
+            if prop in PASS_CONSUMERS[pas]:
+                return False
+        elif failing in anchors:
+            return False
+    return True
 
 
 def prove(chk, allowed_axioms=()):
